@@ -430,7 +430,7 @@ class Gen:
                               # ... and the other way round: the first conforming branch is decided at the range boundaries
                               ["int", "long"], ["int", "double"], ["float", "double"], ["float", "double"], ["float", "double"], ["float", "double"],
                               ["int", "long", "double"], ["long", "double"],
-                              ["int", "long"]])
+                              ["int", "long"], ["int", "long"], ["int", "boolean", "long"], ["int", "string", "long"]])
             br = [{"k": "prim", "name": x} for x in chain]
             if r.random() < 0.5:
                 br.insert(r.randint(0, len(br)), {"k": "prim", "name": "null"})
@@ -451,6 +451,11 @@ class Gen:
             br.append(t)
         if r.random() < 0.5 and "prim:null" not in used:
             br.insert(r.randint(0, len(br)), {"k": "prim", "name": "null"})
+        decs = [full for full, d in self.defs.items() if d["k"] == "fixed" and d.get("lt") == "decimal" and "named:" + full not in used
+                and not (d["ns"] == "" and ns != "")]
+        if decs and r.random() < 0.6:
+            br.append({"k": "ref", "full": r.choice(decs)})     # a fixed decimal referred to by name: a Decimal conforms to it all the same
+            used.add("named:" + br[-1]["full"])
         errs = [full for full, d in self.defs.items() if d.get("error") and full not in self.open and "named:" + full not in used
                 and not (d["ns"] == "" and ns != "")]
         if errs and r.random() < 0.8:
@@ -757,7 +762,7 @@ class Gen:
             b = t["br"][i]
             rb = self.resolve(b)
             v = self.datum(b, depth + 1, hints, omit)
-            if rb["k"] == "prim" and rb["name"] in ("long", "double") and "lt" not in rb and r.random() < 0.3 and \
+            if rb["k"] == "prim" and rb["name"] in ("long", "double") and "lt" not in rb and r.random() < 0.6 and \
                     any(self.resolve(x)["k"] == "prim" and self.resolve(x)["name"] == "int" for x in t["br"][:i]):
                 v = r.choice([2 ** 31, -2 ** 31 - 1])            # just outside int: the int branch ahead must not take it
             if rb["k"] == "prim" and rb["name"] in ("int", "long", "float", "double") and "lt" not in rb and r.random() < 0.3 and \
